@@ -81,6 +81,13 @@ func (ms *memstore) GetMeta(baseUrl HttpBaseUrl, bucket string, filename string)
 	f := ms.find(bucket, filename)
 	if f != nil {
 		meta := f.meta
+		if f.meta.Metadata != nil {
+			// callers decode patches into the returned object: do not share the stored map
+			meta.Metadata = make(map[string]string, len(f.meta.Metadata))
+			for k, v := range f.meta.Metadata {
+				meta.Metadata[k] = v
+			}
+		}
 		InitMetaWithUrls(baseUrl, &meta, bucket, filename, uint64(len(f.data)))
 		return &meta, nil
 	}
